@@ -33,6 +33,15 @@ theorem C16_lookup_failure (E : BlockCipher) (q : Req) (c : Conf) (d : Bytes × 
     (serve E q c).result = "Other" ∧ (serve E q c).code = 500 ∧ (serve E q c).phy = [] ∧ (serve E q c).appSKey = none ∧ (serve E q c).nwkSKey = none :=
   serve_lookup_fails E q c d hd hlf
 
+/-- a device-key store that fails (with anything but "not found") never yields Success, a frame or keys; the answer is still mirrored;
+when the store works the answer is `serve`'s, to which the theorems of this file apply -/
+theorem C16_store_failure (E : BlockCipher) (q : Req) (c : Conf) :
+    (serveStore true E q c).result = "Other" ∧ (serveStore true E q c).code = 400 ∧ (serveStore true E q c).phy = [] ∧
+    (serveStore true E q c).appSKey = none ∧ (serveStore true E q c).nwkSKey = none ∧ (serveStore true E q c).fNwkSIntKey = none ∧
+    (serveStore true E q c).sender = q.receiver ∧ (serveStore true E q c).receiver = q.sender ∧ (serveStore true E q c).txid = q.txid ∧
+    serveStore false E q c = serve E q c := by
+  simp [serveStore]
+
 /-- JOIN-REQUEST with a correct MIC for a known device: Success; the device decrypts the join-accept (aes128_encrypt under NwkKey)
 to exactly JoinNonce | NetID | requested DevAddr | DLSettings | RxDelay | CFList, its MIC verifies (1.0 form under NwkKey, or 1.1 form
 under JSIntKey when OptNeg), and the key envelopes open with the configured KEKs (in clear when none) to the session keys the device
